@@ -28,6 +28,7 @@ type c12Desc struct {
 	Kind   string  `json:"kind"`             // interrupt | mismatch
 	Roots  int     `json:"roots,omitempty"`  // >0: that many roots (header-size arithmetic at the CBOR width boundaries)
 	Big    int     `json:"big,omitempty"`    // >0: the first block's data has this many bytes (sections around the default 8 MiB read limit)
+	V0Twin bool    `json:"v0twin,omitempty"` // blocks: a CIDv0 block, its dag-pb CIDv1 twin (same multihash), another block, the CIDv0 block again
 }
 
 // c12Session abstracts "a file that can be opened for writing again and again".
@@ -150,6 +151,18 @@ func runC12(t *mon.T, raw json.RawMessage) {
 		blks[len(blks)-1] = blks[0] // re-put of an earlier block: must stay de-duplicated across a reopen
 	}
 	blks = blks[:d.N]
+	if d.V0Twin && len(blks) >= 3 {
+		// the two spellings of one multihash: distinct keys when whole CIDs are the keys, one key otherwise;
+		// whichever holds, what a reopened session takes for a duplicate must be what the uninterrupted one does
+		dg := gen.Bytes(r, 32)
+		v0 := refcar.Block{Cid: refcar.MakeCidV0(dg), Data: gen.Bytes(r, 40)}
+		v1 := refcar.Block{Cid: refcar.MakeCidV1(0x70, 0x12, dg), Data: v0.Data}
+		blks[0], blks[1], blks[len(blks)-1] = v0, v1, v0
+		if d.Seed&8 == 0 {
+			blks[0], blks[1], blks[len(blks)-1] = v1, v0, v1
+		}
+		t.Cover("cidv0-and-its-cidv1-twin-put-and-put-again")
+	}
 	roots := lab.ToCids(content.Roots, content.NilRoots)
 	dir := lab.TempDir("c12")
 	defer os.RemoveAll(dir)
@@ -387,6 +400,13 @@ func genC12(g *mon.G) {
 					g.Emit(c12Desc{Seed: r.Int63(), API: api, Cfg: cfg, N: 2, Kind: "interrupt", Big: big})
 				}
 			}
+			if cfg.WholeCID || (cfg.DataPad == 0 && !cfg.V1 && cfg.MaxSec == 0 && cfg.MaxCid == 0) {
+				for _, n := range []int{3, 4} {
+					for rep := 0; rep < g.Pick(1, 3); rep++ {
+						g.Emit(c12Desc{Seed: r.Int63(), API: api, Cfg: cfg, N: n, Kind: "interrupt", V0Twin: true})
+					}
+				}
+			}
 			if cfg.DataPad <= 9 && !cfg.AllowDup {
 				for _, nr := range []int{1, 23, 24, 25} {
 					g.Emit(c12Desc{Seed: r.Int63(), API: api, Cfg: cfg, N: 2, Kind: "interrupt", Roots: nr})
@@ -407,7 +427,7 @@ func init() {
 	Register(&mon.Check{
 		ID:          "C12",
 		Level:       "exploration",
-		Rule:        "interrupt cases: for a put list of n blocks (n ≤ 3 quick / ≤ 5 thorough) ALL 3^(n+1) strings over {continue, Discard+reopen, Finalize+reopen} at the n+1 operation boundaries (random strings for n = 6..15), x 6 (quick) / 10 (thorough) option configurations x {blockstore.OpenReadWrite on a file, storage.OpenReadableWritable on a memfile}; final bytes must equal the uninterrupted session's; some sessions hold one section of exactly / just over 8 MiB (the readers' default section limit, which does not bind writers). mismatch cases: every single-field mismatch (root replaced/removed/added, data padding larger/smaller/larger than the whole file, wrong version) on a finalized and on an unfinalized file must be rejected with the file byte-identical afterwards",
+		Rule:        "interrupt cases: for a put list of n blocks (n ≤ 3 quick / ≤ 5 thorough) ALL 3^(n+1) strings over {continue, Discard+reopen, Finalize+reopen} at the n+1 operation boundaries (random strings for n = 6..15), x 6 (quick) / 10 (thorough) option configurations x {blockstore.OpenReadWrite on a file, storage.OpenReadableWritable on a memfile}; final bytes must equal the uninterrupted session's; directed sessions put a CIDv0 block, its dag-pb CIDv1 twin and the first of them again (all 3^(n+1) strings, whole-CID and multihash keyed configurations); some sessions hold one section of exactly / just over 8 MiB (the readers' default section limit, which does not bind writers). mismatch cases: every single-field mismatch (root replaced/removed/added, data padding larger/smaller/larger than the whole file, wrong version) on a finalized and on an unfinalized file must be rejected with the file byte-identical afterwards",
 		Assumptions: []string{"byte equality only; permuted roots are not a mismatch (documented)", "a storage CAR has no Discard: dropping the object models it"},
 		Gen:         genC12,
 		Run:         runC12,
